@@ -61,6 +61,7 @@ pub fn owning_run(lie: bool) {
     let q = choose(3) as u16;
     let (indirect, event_idx, ap, legacy) = (flip(1, 2), flip(1, 2), flip(1, 3), flip(1, 3));
     crate::scen::queue::draw_device_policy();
+    crate::scen::queue::draw_sharing_mode();
     oplog(|| format!("OwningQueue<{size},{bufsz}> on queue {q} indirect {indirect} event_idx {event_idx} policy {:?} lying lengths {lie}", with(|w| (w.cfg.serve, w.cfg.suppress, w.cfg.in_order))));
     with(|w| {
         w.ensure_queues(4, 32768);
@@ -307,6 +308,7 @@ impl TransportFn<()> for InputRun {
 pub fn input_run() {
     let tk = [TKind::Model, TKind::ModelLegacy, TKind::MmioModern, TKind::Pci, TKind::ModelPciLike][choose(5) as usize];
     crate::scen::queue::draw_device_policy();
+    crate::scen::queue::draw_sharing_mode();
     let mut feats = F_VERSION_1 | F_INDIRECT * choose(2) | F_EVENT_IDX * choose(2) | F_ACCESS_PLATFORM * choose(2);
     if tk.legacy() {
         feats &= !F_VERSION_1;
@@ -401,6 +403,7 @@ impl TransportFn<()> for SoundRun {
 pub fn sound_run() {
     let tk = [TKind::Model, TKind::ModelLegacy, TKind::MmioModern, TKind::Pci][choose(4) as usize];
     crate::scen::queue::draw_device_policy();
+    crate::scen::queue::draw_sharing_mode();
     let mut feats = F_VERSION_1 | F_INDIRECT * choose(2) | F_EVENT_IDX * choose(2) | F_ACCESS_PLATFORM * choose(2);
     if tk.legacy() {
         feats &= !F_VERSION_1;
